@@ -6,28 +6,40 @@ ID = "C02"
 MODULES = ["IoraModel.Props.C02"]
 LEANCHECK = ["IoraModel.Model.LifecycleCore", "IoraModel.Model.EngineLifecycle", "IoraModel.Model.CloseFanout", "IoraModel.Model.LifecycleSites",
              "IoraModel.Lemmas.LifecycleCore", "IoraModel.Lemmas.LifecycleInv", "IoraModel.Lemmas.EngineLifecycle", "IoraModel.Lemmas.EngineSteps", "IoraModel.Lemmas.EngineStale",
-             "IoraModel.Lemmas.CloseFanout", "IoraModel.Props.C02"]
+             "IoraModel.Lemmas.EngineFlags", "IoraModel.Lemmas.CloseFanout", "IoraModel.Props.C02"]
 OBLIGATIONS = [
     {"id": "C02_sites_tcp", "theorem": "Iora.C02.closeSites_covered_tcp", "kind": "proved",
-     "statement": "the lifecycle sites of tcp_engine.hpp (function, kind, guard hash, source order) equal the model's table (with or without the F18/F20 sites)"},
+     "statement": "the lifecycle sites of tcp_engine.hpp (function, kind, guard hash incl. every earlier jump-terminated block, source order) equal the model's table"},
     {"id": "C02_sites_udp", "theorem": "Iora.C02.closeSites_covered_udp", "kind": "proved",
      "statement": "the lifecycle sites of udp_engine.hpp equal the model's table"},
     {"id": "C02_sites_bij", "theorem": "Iora.C02.closeSites_bijective", "kind": "proved",
      "statement": "source close sites <-> close transitions of the model: injective per engine, every Site constructor covered"},
     {"id": "C02_skeletons", "theorem": "Iora.C02.skeletons_conform", "kind": "proved",
-     "statement": "loop / dispatch / drain / connect / enqueue / Transport close-handler call orders are the ones the model assumes"},
+     "statement": "loop / dispatch / drain / connect / enqueue call orders, the epoll mask of a new connect (IN|OUT), the updateInterest formula (connectPending keeps OUT) and the "
+                  "Transport close-handler / observe / unobserve / setSessionData call orders WITH their lock acquisitions are the ones the model assumes"},
+    {"id": "C02_atomics", "theorem": "Iora.C02.atomics_and_callback_copies", "kind": "proved",
+     "statement": "translator: _nextSessionId is std::atomic<SessionId> in both engines; every direct closeCb(...) call site has its own locked copy of _cbs.onClose"},
     {"id": "C02_reach", "theorem": "Iora.C02.reachable", "kind": "proved",
-     "statement": "the lifecycle invariant (17 clauses relating table, queues, id counter, gauge, peer index to the emitted trace) holds after every history on both engines"},
+     "statement": "the lifecycle invariant (table, queues, id counter, gauge, peer index vs the emitted trace) holds after every history on both engines"},
+    {"id": "C02_reach2", "theorem": "Iora.C02.reachable2", "kind": "proved",
+     "statement": "after every history on both engines: no dangling access, a session's connect callback has fired iff its flag says so, and no second connect callback was ever delivered"},
     {"id": "C02_T1", "theorem": "Iora.C02.T1_at_most_one_close", "kind": "proved",
      "statement": "for every config and history, every id occurs in at most one close notification (TCP and UDP)"},
     {"id": "C02_T2", "theorem": "Iora.C02.T2_exactly_one_close_after_stop", "kind": "proved",
-     "statement": "after the shutdown drain every id returned by connect()/connectViaListener() or announced is closed exactly once (true after the F30 repair)"},
+     "statement": "after the shutdown drain every id returned by connect()/connectViaListener() or announced is closed exactly once"},
     {"id": "C02_T2_running", "theorem": "Iora.C02.T2_open_ids_are_tracked", "kind": "proved",
-     "statement": "while running, every seen and not yet closed id is pending in the queue or live in the table"},
-    {"id": "C02_T3", "theorem": "Iora.C02.T3_order", "kind": "proved",
-     "statement": "per id announce < data* < close, nothing after close (data-before-announce under the explicit kernel hypothesis envBad=false)"},
-    {"id": "C02_T3b", "theorem": "Iora.C02.T3_nothing_after_close", "kind": "proved",
-     "statement": "a live table entry has never been closed: no handler can emit for a closed id (no environment hypothesis)"},
+     "statement": "while running, every seen and not yet closed id is pending in the queue or live in the table (the SAFETY rendering of `eventually closed`; no liveness claim)"},
+    {"id": "C02_T3a", "theorem": "Iora.C02.T3_nothing_after_close", "kind": "proved",
+     "statement": "trace level, unconditional: in every trace of every history, no accept/connect/data/close event for an id follows a close of that id"},
+    {"id": "C02_T3b", "theorem": "Iora.C02.T3_announce_at_most_once", "kind": "proved",
+     "statement": "trace level, unconditional: at most one accept callback and at most one connect callback per id"},
+    {"id": "C02_T3c_udp", "theorem": "Iora.C02.T3_data_after_announce_udp", "kind": "proved",
+     "statement": "UDP, unconditional: every data callback of an id is preceded by its accept/connect callback"},
+    {"id": "C02_T3c_tcp", "theorem": "Iora.C02.T3_data_after_announce_tcp", "kind": "proved",
+     "statement": "TCP: every data callback of an id is preceded by its accept/connect callback in every history whose INPUTS honour the environment contract "
+                  "Tcp.envOkHistory (no payload is offered to a plain client socket whose connect completion has not been reported in the same or an earlier event)"},
+    {"id": "C02_T3_state", "theorem": "Iora.C02.T3_live_entries_not_closed", "kind": "proved",
+     "statement": "a live table entry has never been closed: no handler can emit for a closed id"},
     {"id": "C02_T4", "theorem": "Iora.C02.T4_ids_strictly_increase", "kind": "proved",
      "statement": "allocated ids strictly increase along every history; every id in any event is below the counter"},
     {"id": "C02_T5_shape", "theorem": "Iora.C02.T5_fanout_shape", "kind": "proved",
@@ -43,7 +55,7 @@ OBLIGATIONS = [
     {"id": "C02_restart_tie", "theorem": "Iora.C02.drainErasesTags", "kind": "proved",
      "statement": "translator: the shutdown drain erases the fd tag of every session it frees (restart starts from empty maps; F35)"},
     {"id": "C02_udp_index", "theorem": "Iora.C02.udp_index_points_at_live_sessions", "kind": "proved",
-     "statement": "the UDP peer index only points at live announced sessions of that peer (with or without the F17 repair)"},
+     "statement": "the UDP peer index only points at live announced sessions of that peer"},
 ]
 ANCHOR_FILES = ["include/iora/network/detail/tcp_engine.hpp", "include/iora/network/detail/udp_engine.hpp",
                 "include/iora/network/transport_impl.hpp"]
@@ -58,15 +70,16 @@ def gen_tcp_script(rng, idx):
     cob = 0 if rng.chance(1, 6) else 1
     et = 0 if rng.chance(1, 4) else 1
     hto = rng.choice([0, 1000]) if tls else 0
-    ops = ["tcp reset mwq=%d cob=%d et=%d tls=%d nl=1 ntl=%d hto=%d idle=%d age=%d cto=%d wst=%d" %
-           (mwq, cob, et, 1 if tls else 0, 1 if tls else 0, hto, rng.choice([0, 5]), rng.choice([0, 0, 9]), rng.choice([0, 500]), rng.choice([0, 300])),
+    vp = 1 if tls and rng.chance(1, 3) else 0
+    ops = ["tcp reset mwq=%d cob=%d et=%d tls=%d nl=1 ntl=%d hto=%d idle=%d age=%d cto=%d wst=%d vp=%d" %
+           (mwq, cob, et, 1 if tls else 0, 1 if tls else 0, hto, rng.choice([0, 5]), rng.choice([0, 0, 9]), rng.choice([0, 500]), rng.choice([0, 300]), vp),
            "peer listen", "peer listen 0"]
     nsess = 0
     n = rng.range(8, 40)
     for _ in range(n):
         k = rng.below(100)
         if k < 16 and nsess < 12:
-            tgt = rng.choice(["P0", "P0", "E0", "closed", "P1"] + (["E1t", "E1t", "E1", "E0t", "P0t"] if tls else ["P0t"]))
+            tgt = rng.choice(["P0", "P0", "E0", "closed", "P1", "P0s"] + (["E1t", "E1t", "E1", "E0t", "P0t", "nameE1t", "E1s"] if tls else ["P0t"]))
             ops.append("tcp connect " + tgt)
             nsess += 1
         elif k < 22 and nsess < 12:
@@ -89,16 +102,26 @@ def gen_tcp_script(rng, idx):
         elif k < 84:
             fn, code = rng.choice([("send", "EAGAIN"), ("send", "EAGAIN"), ("send", "EPIPE"), ("send", "PART"), ("recv", "ECONNRESET"), ("recv", "EAGAIN"),
                                    ("connect", "ECONNREFUSED"), ("connect", "EIO"), ("socket", "EMFILE"), ("so_error", "ECONNRESET"), ("so_error", "FAIL"),
-                                   ("getpeername", "ECONNREFUSED"), ("getpeername", "ENOTCONN"), ("accept4", "EMFILE"), ("SSL_new", "x"),
-                                   ("getaddrinfo", "FAIL")])
+                                   ("getpeername", "ECONNREFUSED"), ("getpeername", "ENOTCONN"), ("getpeername", "ENOTCONN"), ("accept4", "EMFILE"), ("SSL_new", "x"),
+                                   ("getaddrinfo", "FAIL")] + ([("SSL_set1_host", "x"), ("SSL_read", "x"), ("SSL_write", "x"), ("SSL_write", "EAGAIN")] if tls else []))
             ops.append("tcp inject %s %s %d" % (fn, code, rng.choice([0, 0, 1])))
             if fn == "getaddrinfo" and nsess < 12:
                 ops.append("tcp connect nameP0")
                 nsess += 1
         elif k < 87 and tls:
             ops.append("tcp hookfail %s" % rng.choice(["hsBefore", "hsAfter", "read", "write"]))
+        elif k < 87 and nsess < 12 and rng.chance(1, 2):
+            # the pending-connect window: the immediate check and/or the first writable event still see ENOTCONN, payload is on its way
+            ops += ["tcp inject getpeername ENOTCONN", "tcp connect P0", "tcp poll"]
+            if rng.chance(2, 3):
+                ops += ["tcp inject getpeername ENOTCONN", "tcp poll"]
+            if rng.chance(1, 2):
+                ops.append("tcp send ~%d:%d" % (nsess, rng.choice([1, 32])))
+            ops += ["peer accept 0", "peer send %d 5" % rng.below(8), "tcp poll"]
+            nsess += 1
         elif k < 90:
-            # spurious / stale epoll events on an ANNOUNCED session only (a kernel never reports IN without OUT on a fresh connect)
+            # spurious / stale epoll events (the harness refuses the one a kernel cannot report: IN without OUT on a plain socket whose
+            # connect callback is still outstanding - that is the environment contract of T3c, never fabricated)
             ops.append("tcp ev ~%d %s" % (rng.below(12), rng.choice(["i", "o", "io", "h", "ih", "oh", "e"])))
         elif k < 93:
             ops.append("tcp clock %d" % rng.choice([600, 2000, 6000, 10000]))
@@ -106,6 +129,9 @@ def gen_tcp_script(rng, idx):
         elif k < 97:
             ops.append("tcp oncb %s %s" % (rng.choice(["K", "K", "D", "A", "N"]),
                                            rng.choice(["connect P0", "connect closed", "close self", "send self:8", "close ~%d" % rng.below(12), "stop"])))
+            if rng.chance(1, 3):
+                # a second application action armed for a later close callback (e.g. the one that closes a residual connect)
+                ops.append("tcp oncb K %s" % rng.choice(["connect P0", "connect P0", "connect closed", "send self:8"]))
         elif k < 98:
             ops.append("tcp stop")
             if rng.chance(1, 2):
@@ -132,7 +158,7 @@ def gen_udp_script(rng, idx):
             ops.append("udp connect %s" % rng.choice(["P0", "P1", "P2", "closed"]))
             nsess += 1
         elif k < 22 and nsess < 12:
-            ops.append("udp via %d:%s" % (rng.below(2), rng.choice(["P0", "P1", "P2", "P0", "bad"])))
+            ops.append("udp via %d:%s" % (rng.below(2), rng.choice(["P0", "P1", "P2", "P0", "bad", "v6"])))
             nsess += 1
         elif k < 36:
             ops.append("peer usend %d %d %d" % (rng.below(3), rng.below(2), rng.choice([1, 8, 0, 100])))
@@ -160,6 +186,8 @@ def gen_udp_script(rng, idx):
         elif k < 98:
             ops.append("udp oncb %s %s" % (rng.choice(["K", "K", "D", "N"]),
                                            rng.choice(["connect P0", "via 0:P1", "close self", "send self:8", "close ~%d" % rng.below(12), "stop"])))
+            if rng.chance(1, 3):
+                ops.append("udp oncb K %s" % rng.choice(["connect P0", "via 0:P1", "send self:8"]))
         elif k < 99:
             ops.append("udp stop")
             if rng.chance(1, 2):
@@ -194,8 +222,7 @@ FIXED_CASES = [
 ]
 FIXED_CASES += [
     # F35 witness: stop, start again, the new session reuses the fd number of a session the drain freed
-    {"cat": "tcp-stepped", "id": "F35-restart", "ops": ["tcp reset", "peer listen", "tcp connect P0", "tcp poll", "peer accept 0", "tcp poll", "tcp stop", "tcp poll", "tcp restart",
-                                                         "tcp connect P0", "tcp poll", "peer accept 0", "peer send 1 5", "tcp poll", "tcp poll", "peer fin 1", "tcp poll", "tcp end"]},
+    {"cat": "tcp-stepped", "id": "F35-restart", "ops": ["tcp reset", "peer listen", "tcp connect P0", "tcp connect P0", "tcp poll", "peer accept 0", "peer accept 0", "tcp poll", "tcp stop", "tcp poll", "tcp restart", "tcp connect P0", "tcp connect P0", "tcp connect P0", "tcp connect P0", "tcp poll", "peer accept 0", "peer accept 0", "peer accept 0", "peer accept 0", "peer send 2 5", "peer send 3 5", "peer send 4 5", "peer send 5 5", "tcp poll", "tcp poll", "peer fin 2", "peer fin 3", "peer fin 4", "peer fin 5", "tcp poll", "tcp end"]},
     {"cat": "udp-stepped", "id": "restart-udp", "ops": ["udp reset", "peer udp", "udp connect P0", "udp poll", "udp send ~0:4", "udp poll", "udp stop", "udp poll", "udp restart",
                                                          "udp connect P0", "udp poll", "udp send ~1:4", "udp poll", "peer ureply 0", "udp poll", "udp end"]},
     # TLS: handshake, data both ways, hook faults, close_notify, garbage to a TLS listener, inline handshake timeout
@@ -211,6 +238,46 @@ FIXED_CASES += [
                                                                         "udp send ~0:4", "udp send ~0:4", "udp send ~0:4", "udp poll", "udp poll", "udp end"]},
     {"cat": "tcp-stepped", "id": "write-stall-timer", "ops": ["tcp reset mwq=8 wst=300", "peer listen", "tcp connect P0", "tcp poll", "peer accept 0", "tcp poll", "tcp inject send EAGAIN", "tcp send ~0:10", "tcp poll",
                                                                "tcp timer ~0:stall", "tcp poll", "tcp end"]},
+]
+FIXED_CASES += [
+    # a connect() from the close callback that closes a residual connect: a residual of a residual (two nested application actions)
+    {"cat": "tcp-stepped", "id": "residual-of-residual-tcp", "ops": ["tcp reset", "peer listen", "tcp connect P0", "tcp poll", "tcp oncb K connect P0", "tcp oncb K connect P0", "tcp end"]},
+    {"cat": "tcp-stepped", "id": "residual-of-residual-x3", "ops": ["tcp reset", "peer listen", "tcp connect P0", "tcp poll", "tcp oncb K connect P0", "tcp oncb K connect closed",
+                                                                     "tcp oncb K connect P0", "tcp end"]},
+    {"cat": "udp-stepped", "id": "residual-of-residual-udp", "ops": ["udp reset", "peer udp", "udp connect P0", "udp poll", "udp oncb K connect P0", "udp oncb K via 0:P0", "udp end"]},
+    # connect by NAME with a verified peer: SSL_set1_host fails (close `sni`, the session is never inserted), then succeeds
+    {"cat": "tcp-stepped", "id": "sni-bind-failure", "ops": ["tcp reset tls=1 nl=1 ntl=1 vp=1", "tcp inject SSL_set1_host x", "tcp connect nameE1t", "tcp poll", "tcp poll",
+                                                              "tcp connect nameE1t", "tcp poll", "tcp poll", "tcp poll", "tcp poll", "tcp poll", "tcp send ~1:8", "tcp poll", "tcp poll", "tcp end"]},
+    # TlsMode::Server / TlsMode::Client without a client context on connect(): refused with a close for the returned id
+    {"cat": "tcp-stepped", "id": "tls-mode-refused", "ops": ["tcp reset", "peer listen", "tcp connect P0s", "tcp connect P0t", "tcp poll", "tcp connect P0", "tcp poll", "tcp end"]},
+    {"cat": "tcp-stepped", "id": "tls-server-mode-refused", "ops": ["tcp reset tls=1 nl=1 ntl=1", "tcp connect E1s", "tcp poll", "tcp connect E1t", "tcp poll", "tcp poll", "tcp poll", "tcp poll", "tcp end"]},
+    # OpenSSL I/O failures after the handshake: read path, direct-send path, queued-write path (TLSIO/*)
+    {"cat": "tcp-stepped", "id": "tls-io-read-error", "ops": ["tcp reset tls=1 nl=1 ntl=1", "tcp connect E1t", "tcp poll", "tcp poll", "tcp poll", "tcp poll", "tcp poll",
+                                                               "tcp send ~1:20", "tcp inject SSL_read x", "tcp poll", "tcp poll", "tcp poll", "tcp end"]},
+    {"cat": "tcp-stepped", "id": "tls-io-send-error", "ops": ["tcp reset tls=1 nl=1 ntl=1", "tcp connect E1t", "tcp poll", "tcp poll", "tcp poll", "tcp poll", "tcp poll",
+                                                               "tcp inject SSL_write x", "tcp send ~0:20", "tcp poll", "tcp poll", "tcp poll", "tcp end"]},
+    {"cat": "tcp-stepped", "id": "tls-io-queued-write-error", "ops": ["tcp reset mwq=8 tls=1 nl=1 ntl=1", "tcp connect E1t", "tcp poll", "tcp poll", "tcp poll", "tcp poll", "tcp poll",
+                                                                       "tcp inject SSL_write EAGAIN", "tcp send ~0:20", "tcp poll", "tcp inject SSL_write x", "tcp ev ~0 o", "tcp poll", "tcp poll", "tcp end"]},
+    # IPv6-only remote through an IPv4 listener
+    {"cat": "udp-stepped", "id": "via-af-mismatch", "ops": ["udp reset", "peer udp", "udp via 0:v6", "udp poll", "udp via 0:P0", "udp poll", "udp via 0:v6", "udp poll", "udp end"]},
+    # SSL_new failures, live connect-timeout and write-stall closes
+    {"cat": "tcp-stepped", "id": "ssl-new-failures", "ops": ["tcp reset tls=1 nl=1 ntl=1", "tcp inject SSL_new x", "tcp connect E1t", "tcp poll", "tcp inject SSL_new x", "tcp connect nameE1t", "tcp poll",
+                                                              "tcp inject SSL_new x 1", "tcp connect E1t", "tcp poll", "tcp poll", "tcp poll", "tcp end"]},
+    {"cat": "tcp-stepped", "id": "connect-timeout-live", "ops": ["tcp reset cto=500", "peer listen 0", "tcp connect P0", "tcp connect P0", "tcp connect P0", "tcp poll", "tcp timer ~1:connect", "tcp timer ~2:connect",
+                                                                  "tcp timer ~0:connect", "tcp poll", "tcp poll", "tcp end"]},
+    {"cat": "tcp-stepped", "id": "write-stall-live", "ops": ["tcp reset mwq=8 wst=300", "peer listen", "tcp connect P0", "tcp connect P0", "tcp poll", "peer accept 0", "peer accept 0", "tcp poll",
+                                                              "tcp inject send EAGAIN", "tcp send ~0:10", "tcp inject send EAGAIN 1", "tcp send ~1:10", "tcp poll", "tcp timer ~0:stall", "tcp timer ~1:stall", "tcp poll", "tcp end"]},
+    # a writable event while the connect is still pending (getpeername says ENOTCONN) must keep EPOLLOUT in the interest mask: the
+    # completion is then reported with (or before) the first payload, never after it
+    {"cat": "tcp-stepped", "id": "pending-connect-keeps-writable-interest", "ops": ["tcp reset", "peer listen", "tcp inject getpeername ENOTCONN", "tcp connect P0", "tcp poll",
+                                                                                     "tcp inject getpeername ENOTCONN", "tcp poll", "peer accept 0", "peer send 0 5", "tcp poll", "tcp poll", "tcp end"]},
+    {"cat": "tcp-stepped", "id": "pending-connect-keeps-writable-interest-lt", "ops": ["tcp reset et=0", "peer listen", "tcp inject getpeername ENOTCONN", "tcp connect P0", "tcp poll",
+                                                                                        "tcp inject getpeername ENOTCONN", "tcp poll", "peer accept 0", "peer send 0 5", "tcp poll", "tcp poll", "tcp end"]},
+    # a send queued while the connect is pending, payload arriving with the connect completion: connect callback first, then data
+    {"cat": "tcp-stepped", "id": "data-with-connect-completion", "ops": ["tcp reset", "peer listen", "tcp inject getpeername ENOTCONN", "tcp connect P0", "tcp poll", "tcp send ~0:8", "peer accept 0",
+                                                                          "peer send 0 5", "tcp poll", "tcp poll", "peer send 0 5", "tcp poll", "tcp end"]},
+    {"cat": "tcp-stepped", "id": "data-with-connect-completion-lt", "ops": ["tcp reset et=0", "peer listen", "tcp inject getpeername ENOTCONN", "tcp connect P0", "tcp poll", "tcp send ~0:8", "tcp poll", "peer accept 0",
+                                                                             "peer send 0 5", "tcp poll", "tcp poll", "tcp end"]},
 ]
 SLOW_CASE = {"cat": "tcp-stepped", "id": "dns-timeout", "ops": ["tcp reset", "peer listen", "tcp inject getaddrinfo SLOW", "tcp connect nameP0", "tcp poll", "tcp end"]}
 
@@ -326,11 +393,13 @@ def fan_monitor(c, impl):
 EV = re.compile(r"^([RANDKXS])(\d+|\?)(?::([^@]*))?(?:@(-?\d+))?$")
 
 
-def life_monitor(events, final_known=None, final_cur=None, ordered_ids=True, env_ok=True):
+def life_monitor(events, final_known=None, final_cur=None, ordered_ids=True):
     """events: list of (kind, sid, extra, gauge or None) in observation order.  Returns property failures (T1/T2/T3/T4/T6)."""
     bad = []
     closed = {}
     announced = set()
+    accepted_cb = set()
+    connected_cb = set()
     returned = []
     allocs = []
     open_ann = 0
@@ -348,19 +417,26 @@ def life_monitor(events, final_known=None, final_cur=None, ordered_ids=True, env
                 bad.append("T3: accept callback for id %d after its close" % sid)
             if sid in announced or sid in returned:
                 bad.append("T4: id %d announced by accept was already in use" % sid)
+            if sid in accepted_cb:
+                bad.append("T3: second accept callback for id %d" % sid)
+            accepted_cb.add(sid)
             announced.add(sid)
             allocs.append(sid)
             open_ann += 1
         elif k == "N":
             if sid in closed:
                 bad.append("T3: connect callback for id %d after its close" % sid)
+            if sid in connected_cb:
+                bad.append("T3: second connect callback for id %d" % sid)
+            connected_cb.add(sid)
             if sid not in announced:
                 open_ann += 1
             announced.add(sid)
         elif k == "D":
             if sid in closed:
                 bad.append("T3: data for id %d after its close" % sid)
-            elif sid not in announced and env_ok:
+            elif sid not in announced:
+                # no excuse: the harness never fabricates a readable-but-not-connected socket, so this is the engine's doing
                 bad.append("T3: data for id %d before its accept/connect callback" % sid)
         elif k == "K":
             if sid in closed:
@@ -464,7 +540,7 @@ def check_stepped(ctx, hb, res, dist):
         events = []
         final_known = None
         final_cur = None
-        env_bad = False
+        env_in = None
         mi = a
         mism = None
         sites = {}
@@ -486,8 +562,8 @@ def check_stepped(ctx, hb, res, dist):
             events += evs
             mo = mout[mi]
             mi += 1
-            if "!env" in mo:
-                env_bad = True
+            if "!envin" in mo and env_in is None:
+                env_in = (op, obs)
             for k, sid, extra, _ in evs:
                 if k == "K":
                     sites[extra] = sites.get(extra, 0) + 1
@@ -496,16 +572,21 @@ def check_stepped(ctx, hb, res, dist):
             mstats = mrest.split(" ")[0]
             flags = mrest.split(" ")[1:]
             icb, _, istats = obs.partition("|")
-            same = (icb == mcb) and (istats == "-" or istats == mstats) and not [f for f in flags if f != "!env"]
+            same = (icb == mcb) and (istats == "-" or istats == mstats) and not [f for f in flags if f != "!envin"]
             if not same and mism is None:
                 mism = (op, obs, mo, idx)
         fails = []
         if crash:
             first = next((i for i, l in enumerate(lines) if l.startswith("crash:")), len(lines) - 1)
             fails.append("T0: the engine crashed (%s) in `%s`" % (crash, c["ops"][min(first, len(c["ops"]) - 1)]))
-        fails += life_monitor(events, final_known, final_cur, ordered_ids=True, env_ok=not env_bad)
-        if env_bad:
-            ctx.extra["env_hypothesis_false_cases"] = ctx.extra.get("env_hypothesis_false_cases", 0) + 1
+        fails += life_monitor(events, final_known, final_cur, ordered_ids=True)
+        if env_in:
+            # The kernel reported readable-without-writable for a plain socket whose connect callback is outstanding.  The harness
+            # injects no such event (synthetic `ev` refuses it), so the engine's own epoll interest let it through: property failure.
+            ctx.extra["env_contract_broken_cases"] = ctx.extra.get("env_contract_broken_cases", 0) + 1
+            if not any(f.startswith("T3: data") for f in fails):
+                fails.append("T3: payload reached a session whose connect callback is outstanding (`%s` -> `%s`): the engine's epoll interest on a pending connect "
+                             "does not include EPOLLOUT (environment contract Tcp.envOk broken by the engine, not by an injected fault)" % env_in)
         for k, v in sites.items():
             ctx.extra.setdefault("close_reasons_seen", {})
             ctx.extra["close_reasons_seen"][k] = ctx.extra["close_reasons_seen"].get(k, 0) + v
@@ -718,14 +799,30 @@ def run(ctx: Ctx):
     ctx.extra["input_distribution"] = dist
     ctx.extra["repo_tree_sha"] = ctx.repo_tree_sha(ANCHOR_FILES)
     ctx.extra["not_proved"] = [
-        "T3's `data only after announce` carries the environment hypothesis envBad=false (no payload from a socket whose connect has not completed): a kernel fact, not proved",
+        "T3c on TCP (`data only after the connect callback`) is proved for histories whose INPUTS honour Tcp.envOkHistory (the kernel offers no payload to a plain client socket "
+        "before reporting its connect completion); that the engine keeps EPOLLOUT registered so that the kernel can honour it is tied by the translated updateInterest/addEpoll "
+        "skeleton and checked on the real engine by the unconditional monitor `no data before announce` - not proved about epoll itself. T3a/T3b and T3c on UDP carry no hypothesis",
+        "T2 while running is the SAFETY rendering only (every open id is still pending in the queue or live in the table); that a running engine eventually processes its queue "
+        "is a liveness fact of the I/O loop and is not stated. `Exactly one close` is proved at the end of an orderly stop",
+        "T6: the gauge is compared at handler boundaries. closeNow() decrements sessionsCurrent BEFORE it calls the close callback, so inside onClose (and for a concurrent getStats()) "
+        "the closing session is already not counted; the model's gauge equation is about states between handlers, the monitor's `never under-counts announced open sessions` is "
+        "evaluated after each callback batch",
+        "the close site `listener gone` of UdpEngine::sendDo is unreachable through the public API (listeners are only removed by the drain, after every session is gone): "
+        "it is a model transition tied by the site table, never exercised",
         "the EventBatchProcessor path (loopBatched) is tied by its call skeleton and exercised by the threaded scenarios only (monitors), not by the stepped acceptor",
+        "the lock acquisitions of Transport::observe/unobserve/setSessionData/close handler and the atomicity of _nextSessionId are translator facts (token present in the "
+        "source); the interleavings they exclude are explored only by the thorough-tier TSan scenarios on the engines, not on Transport",
     ]
     ctx.assumptions += [
         "callbacks are installed before the engine starts (Transport::Impl::setupEngineCallbacks always installs all five)",
         "no exception escapes a callback or a handler (TcpEngine::process catches and reports; a throwing callback can skip a close)",
-        "engine restart after stop() is outside the model (one start .. stop life of an engine instance)",
-        "kernel, OpenSSL and clocks are inputs of the model (answer lists): which event/answer follows which is not verified",
+        "stop() followed by start() on the same engine instance is inside the model (apiStart after a completed drain); destroying an engine is not",
+        "kernel, OpenSSL and clocks are inputs of the model (answer lists): which event/answer follows which is not verified, except that the stepped harness never "
+        "fabricates `readable without writable` for a plain socket whose connect callback is outstanding (the environment contract Tcp.envOk)",
+        "the stepped acceptor derives three inputs from the implementation's own callbacks rather than independently: which sessions a GC pass picked (the ids it closed with "
+        "reason gc), the set and order of sessions closed by the shutdown drain (unordered_map iteration order), and whether the inline handshake-timeout check fired (the close "
+        "with reason hsTimeout inside a handshake step). For these the model checks that each such close is LEGAL (session live, not yet closed, in the right phase) and that "
+        "nothing is missing at the end (T2/T6), not that the choice itself is the one a specification would make",
     ]
     return ctx.finish(level="proof", rule="a case = one scripted history over a stepped REAL TcpEngine/UdpEngine on loopback (model must explain its trace), one close fan-out "
                       "history over Transport+scripted engine (lockstep), or one threaded real-engine scenario (monitors); non-trivial = at least one close / callback")
